@@ -621,8 +621,9 @@ impl<'a, 'b> GsubHandler<'a, 'b> {
     /// returns the range of touched glyphs.
     fn finish(self) -> Option<Range<usize>> {
         self.visited_set.clear();
-        if self.min_gid > self.max_gid {
-            // We didn't touch any glyphs
+        if self.min_gid > self.max_gid || self.max_gid >= self.glyph_styles.len() {
+            // We didn't touch any glyphs (the second test covers a font
+            // with no glyphs, where the initial min_gid == max_gid == 0)
             return None;
         }
         let range = self.min_gid..self.max_gid + 1;
